@@ -35,7 +35,7 @@ env.setup()
 
 import pde  # noqa: E402
 
-from vlib.core import Rejected, SubCheck, Violation, cnum  # noqa: E402
+from vlib.core import HarnessError, Rejected, SubCheck, Violation, cnum  # noqa: E402
 
 PROPERTY = "C06"
 RULE = ("non-trivial = n >= 2 steps and (forcing b != 0 or complex rate or t_start != 0) and the "
@@ -560,6 +560,89 @@ def check_fixed(case):
         labels.append("2d-state")
     if cf is not None:
         labels.append("closed-form")
+    return {"nt": nt, "labels": labels, "ratio": worst}
+
+
+# ---------------------------------------------------------------------------------------
+# the stepping function is built from an EXAMPLE state and advances the state it is CALLED with
+# (after missed seed C06-6: solve()/Controller always pass the very field the stepper was built from)
+# ---------------------------------------------------------------------------------------
+def check_stepper_reuse(case):
+    from pde.solvers.base import SolverBase
+
+    prob = Problem(case)
+    solver, backend = case["solver"], case["backend"]
+    dt, n = float(case["dt"]), int(case["n"])
+    alpha = float(case.get("alpha") or 0.0)
+    t0 = prob.t_start
+    t_end = t0 + n * dt
+    tag = f"{solver}:{backend}:stepper-reuse"
+    # second problem: same equation, other initial values (the example the stepper is built from)
+    case2 = dict(case, u0=[enc(0.5 * dec(v) + 1.0) for v in case["u0"]])
+    prob2 = Problem(case2)
+    if prob2.complex_state != prob.complex_state:
+        raise HarnessError("example state of another data type")
+
+    us, _ = ref_trajectory(solver, prob, dt, n, alpha=alpha)
+    us2, _ = ref_trajectory(solver, prob2, dt, n, alpha=alpha)
+    kw, maxerror = solver_options(case, prob, us + us2)
+    us, E = ref_trajectory(solver, prob, dt, n, alpha=alpha, maxerror=maxerror)
+    us2, E2 = ref_trajectory(solver, prob2, dt, n, alpha=alpha, maxerror=maxerror)
+
+    eq = prob.equation()
+    solver_obj = SolverBase.from_name(solver, pde=eq, backend=backend, **kw)
+
+    def field_of(pr):
+        f = pr.field()
+        # (PDEBase.solve converts a real state for a complex-valued equation; here it is done by hand)
+        return f.copy(dtype=complex) if prob.is_complex and not np.iscomplexobj(f.data) else f
+
+    example = field_of(prob2)
+    example_before = example.data.copy()
+    with _Watchdog(tag):
+        stepper = solver_obj.make_stepper(example, dt)
+        target = field_of(prob)
+        t_last = stepper(target, t0, t_end)
+    steps = solver_obj.info["steps"]
+    if steps != n:
+        raise Violation(f"{tag}: {steps} steps reported for a range of exactly n={n} steps (dt={dt!r}, "
+                        f"t_start={t0!r})", key=f"{tag}:steps")
+    if abs(t_last - t_end) > (4 * n + 8) * ulp(max(abs(t0), abs(t_end))):
+        raise Violation(f"{tag}: stepper returned t={t_last!r}, expected t_start + n*dt = {t_end!r}",
+                        key=f"{tag}:t_last")
+    if not np.array_equal(example.data, example_before):
+        raise Violation(f"{tag}: the stepping function built from an example state and called with ANOTHER "
+                        f"field changed the example: {example_before.ravel()!r} -> {example.data.ravel()!r}",
+                        key=f"{tag}:example-modified")
+    worst = 0.0
+
+    def compare(got, want, tol, what):
+        nonlocal worst
+        got = np.asarray(got).ravel()
+        err = float(np.abs(got - want).max())
+        if not err <= tol:
+            raise Violation(
+                f"{tag}: {what}: field after {n} steps is {got!r}, the reference scheme gives {want!r} "
+                f"(|diff|={err:.3e} > tol {tol:.3e}); initial values {prob.u0!r}, example the stepper was built "
+                f"from {prob2.u0!r}; a={prob.a!r} b={prob.b!r} dt={dt!r} t_start={t0!r}", key=f"{tag}:{what}")
+        worst = max(worst, err / tol if tol > 0 else 0.0)
+
+    compare(target.data, us[n], E[n], "called-with-other-field")
+    second = solver != "adams-bashforth"  # (the multi-step history lives in the stepping function)
+    if second:
+        with _Watchdog(tag):
+            target2 = field_of(prob2)
+            stepper(target2, t0, t_end)
+        compare(target2.data, us2[n], E2[n], "second-call-other-field")
+        if not np.array_equal(example.data, example_before):
+            raise Violation(f"{tag}: second call changed the example state", key=f"{tag}:example-modified")
+    unorm = float(np.abs(us[n]).max())
+    sharp = E[n] <= 1e-8 * max(unorm, 1e-300)
+    nt = sharp and float(np.abs(us[n] - us2[n]).max()) > 1e3 * (E[n] + E2[n])
+    labels = [f"{solver}:{backend}", solver, backend, a_class(prob.a), "b!=0" if prob.b != 0 else "b=0",
+              "complex-state" if prob.is_complex else "real-state", "n>=2" if n >= 2 else "n=1",
+              ratio_label(worst), "sharp-tol" if sharp else "weak-tol",
+              "two-calls" if second else "one-call"]
     return {"nt": nt, "labels": labels, "ratio": worst}
 
 
@@ -1103,6 +1186,16 @@ SUBCHECKS = [
     SubCheck("scipy_solver", strategy=scipy_cases, check=check_scipy, mode="nojit",
              budget={"quick": 200, "thorough": 6000}, shards={"quick": 1, "thorough": 4},
              rule="non-trivial = b != 0 or complex a or t_start != 0"),
+    SubCheck("stepper_applied_to_other_field", strategy=lambda: fixed_cases(cuts="none", nmax=12),
+             check=check_stepper_reuse, mode="nojit", budget={"quick": 500, "thorough": 12000},
+             shards={"quick": 1, "thorough": 4},
+             rule="solver.make_stepper(example, dt) called with other fields than the example; non-trivial = "
+                  "sharp tolerance and results for the two initial states differ by > 1000 tolerances"),
+    SubCheck("stepper_applied_to_other_field_jit",
+             strategy=lambda: fixed_cases(backends=("numba",), cuts="none", nmax=8),
+             check=check_stepper_reuse, mode="jit", budget={"quick": 8, "thorough": 200},
+             shards={"quick": 2, "thorough": 4},
+             rule="compiled stepping function called with other fields than the example"),
     # ---- dedicated sub-check of finding F-C06a ------------------------------------------
     SubCheck("adaptive_huge_initial_dt",
              strategy=lambda: adaptive_cases(huge_dt0=True, forcing="none").map(
